@@ -105,6 +105,21 @@ class Servlet(ABC):
     def children(self) -> list:
         raise NotImplementedError
 
+    def _stop_started_workers(self, q_in) -> None:
+        # A worker has failed to initialize. Stop its peers that have already
+        # started, so that a failed `start` leaves nothing running.
+        if self._workers:
+            q_in.put(None)
+            for w in self._workers:
+                w.join()
+            self._workers = []
+
+    @staticmethod
+    def _stop_started_servlets(servlets) -> None:
+        # A member servlet has failed to start. Stop the members that have started.
+        for s in servlets:
+            s.stop()
+
     def _debug_info(self) -> dict:
         zz = []
         for ch in self.children:
@@ -225,7 +240,10 @@ class ProcessServlet(Servlet):
             p.start()
             name = q_out.get()
             if name is None:
-                p.join()  # this will raise exception b/c worker __init__ failed
+                try:
+                    p.join()  # this will raise exception b/c worker __init__ failed
+                finally:
+                    self._stop_started_workers(q_in)
             self._workers.append(p)
             logger.debug('   ... worker <%s> is ready', name)
 
@@ -343,7 +361,10 @@ class ThreadServlet(Servlet):
             w.start()
             name = q_out.get()
             if name is None:
-                w.join()  # this will raise exception b/c worker __init__ failed
+                try:
+                    w.join()  # this will raise exception b/c worker __init__ failed
+                finally:
+                    self._stop_started_workers(q_in)
             self._workers.append(w)
             logger.debug('   ... worker <%s> is ready', name)
 
@@ -432,7 +453,12 @@ class SequentialServlet(Servlet):
                 self._qs.append(q2)
             else:
                 q2 = q_out
-            s.start(q1, q2)
+            try:
+                s.start(q1, q2)
+            except BaseException:
+                self._stop_started_servlets(self._servlets[:i])
+                self._qs = []
+                raise
             q1 = q2
         self._q_in = q_in
         self._q_out = q_out
@@ -529,7 +555,12 @@ class EnsembleServlet(Servlet):
                 if s.output_queue_type == 'thread'
                 else _SimpleProcessQueue()
             )
-            s.start(q1, q2)
+            try:
+                s.start(q1, q2)
+            except BaseException:
+                self._stop_started_servlets(self._servlets[: len(self._qins)])
+                self._reset()
+                raise
             self._qins.append(q1)
             self._qouts.append(q2)
         t = Thread(target=self._dequeue, name=f'{self.__class__.__name__}._dequeue')
@@ -703,7 +734,12 @@ class SwitchServlet(Servlet):
                 if s.input_queue_type == 'thread'
                 else _SimpleProcessQueue()
             )
-            s.start(q1, q_out)
+            try:
+                s.start(q1, q_out)
+            except BaseException:
+                self._stop_started_servlets(self._servlets[: len(self._qins)])
+                self._reset()
+                raise
             self._qins.append(q1)
 
         self._thread_enqueue = Thread(
